@@ -68,6 +68,7 @@ def run(ctx):
     rule8(ctx, prog, flows)
     rule9(ctx, prog, flows, full)
     rule10(ctx, prog, flows)
+    relaxation_discipline(ctx, prog, flows, "R-C08-11", {"dijkstra::dijkstra": "full", "dijkstra::dijkstra_basic": "basic"})
 
 
 def rule1(ctx, prog, flows, cub, full, basic):
@@ -651,3 +652,267 @@ def rule10(ctx, prog, flows):
             ctx.require(not on_tent, "R-C08-10", "settled-test|%s|%d" % (sfx.split("::")[-1], n), "%s asks `%s` of the final vector %s" % (sfx.split("::")[-1], st.rv.j["op"], on_final),
                         "in the edge loop of %s the test against f64::MAX reads the TENTATIVE distance vector `%s`: a node that has merely been reached is treated as settled and is never relaxed again, so its distance is that of the first route that found it -- the fast kernel then disagrees with the full one (and distances change when an option is added)" % (sfx, "/".join(on_tent)), loc_str(st.span))
     ctx.counters["settled_tests_in_edge_loops"] = n
+
+
+RELAX_EXPECTED = {
+    # (conditions under which a popped node's distance is made final, conditions under which a tentative distance is lowered)
+    "full": ({frozenset({("eqmax", "FIN", True)})}, {frozenset({("eqmax", "FIN", True), ("lt", "CAND<TENT", True)})}),
+    "basic": ({frozenset({("eqmax", "FIN", True)})}, {frozenset({("lt", "CAND<TENT", True)})}),
+    "closeness": ({frozenset({("eqmax", "FIN", True)})}, {frozenset({("eqmax", "FIN", True), ("eqmax", "TENT", True)}), frozenset({("eqmax", "FIN", True), ("eqmax", "TENT", False), ("lt", "CAND<TENT", True)})}),
+}
+
+
+def relaxation_discipline(ctx, prog, flows, rid, kernels):
+    """Dijkstra's two decisions, as conditions on the final vector FIN, the tentative vector TENT and the candidate
+    distance CAND (roles, not names): (A) a popped node's distance is made final exactly when it is not final yet
+    (FIN == MAX); (B) a tentative distance is lowered exactly when the candidate is strictly smaller (in the kernels
+    that look at it: and the node is not final; in the closeness kernel: or the node has not been reached).  The
+    conditions are read off the CFG: every way from the loop header to the write, as the set of comparisons passed
+    with their outcomes.  A flipped comparison, `&&` for `||`, a test of the wrong vector or an extra skip changes the set."""
+    from hashord import natural_loop_blocks
+    from engines import path_conditions
+
+    ctx.rule(rid, "the kernels make a distance final only when FIN == MAX and lower a tentative distance only when CAND < TENT (role-based path conditions of the two writes)")
+    for sfx, kind in kernels.items():
+        k = prog.one(sfx)
+        fl = flows.of(k)
+        inner = None
+        hdr = None
+        for t in k.calls():
+            if t.callee and t.callee.short == "std::iter::Iterator::next":
+                lb = natural_loop_blocks(k, t.bb)
+                itd = panic.norm(panic.expand_names(fl, panic.norm(fl.describe(t.args[0], depth=10)), depth=8))
+                if len(lb) > 1 and desc_mentions(itd, lambda x: x[0] == "call" and x[1].split("::")[-1] in ("get_successor_nodes_by_index", "get_predecessor_nodes_by_index")):
+                    if inner is None or len(lb) < len(inner):
+                        inner, hdr = lb, t.bb
+        if inner is None:
+            ctx.undecided(rid, "kernel|" + kind, "no loop over a popped node's adjacency row found in %s" % sfx, loc_str(k.span))
+            continue
+        vecs = [l["i"] for l in k.locals if str(l["ty"]) == "std::vec::Vec<f64>"]
+        w_in, w_out = {}, {}
+        for st in k.stmts():
+            if st.k == "assign" and st.lhs.has_deref() and st.lhs.ty == "f64":
+                for o in fl.resolve(st.lhs):
+                    if o[0] == "L" and o[1] in vecs:
+                        (w_in if st.bb in inner else w_out).setdefault(o[1], []).append(st)
+        tent = set(w_in)
+        fin = set(w_out) - tent
+        # several f64 vectors may be written (path counts `sigma`): the distance vectors are those compared with MAX
+        def cmp_with_max(l):
+            nm = k.local_name(l)
+            for st in k.stmts():
+                if st.k == "assign" and st.rv.k == "binop" and st.rv.j["op"] in ("Eq", "Ne"):
+                    ds = [panic.norm(fl.describe(o, depth=6)) for o in st.rv.ops]
+                    if any(d[0] == "const" and "MAX" in d[1] for d in ds if isinstance(d, tuple)) and any(isinstance(d, tuple) and d[0] == "place" and d[1].split("[")[0] == nm for d in ds):
+                        return True
+            return False
+        fin = {l for l in fin if cmp_with_max(l)}
+        tent_d = {l for l in tent if cmp_with_max(l)} or tent
+        # the tentative vector is the one whose in-loop writes store the candidate (an f64 sum)
+        cand_locals = set()
+        for st in k.stmts():
+            if st.bb in inner and st.k == "assign" and st.rv.k == "binop" and st.rv.j["op"] == "Add" and st.lhs.ty == "f64" and not st.lhs.proj:
+                cand_locals |= fl.copies_of(st.lhs.local) | {st.lhs.local}
+        tent_w = []
+        for l in tent_d:
+            for st in w_in[l]:
+                if st.rv.ops and st.rv.ops[0].place is not None and st.rv.ops[0].place.local in cand_locals:
+                    tent_w.append((l, st))
+        tent = {l for (l, st) in tent_w}
+        if not fin or not tent:
+            ctx.undecided(rid, "kernel|" + kind, "cannot tell the final from the tentative distance vector in %s" % sfx, loc_str(k.span))
+            continue
+        fin_names = {k.local_name(l) for l in fin}
+        tent_names = {k.local_name(l) for l in tent}
+        cand_names = {k.local_name(l) for l in cand_locals if k.local_name(l)}
+
+        def role(d):
+            if not isinstance(d, tuple):
+                return None
+            if d[0] == "const" and "MAX" in d[1]:
+                return "MAX"
+            if d[0] == "place":
+                base = d[1].split("[")[0]
+                if "[" in d[1] and base in fin_names:
+                    return "FIN"
+                if "[" in d[1] and base in tent_names:
+                    return "TENT"
+                if d[1] in cand_names:
+                    return "CAND"
+            if d[0] == "binop" and d[1] == "Add":
+                return "CAND"
+            if d[0] == "tmp" and d[1] in cand_locals:
+                return "CAND"
+            return None
+
+        dist_locals = set(fin) | set(tent) | set(cand_locals)
+
+        def lit(te, val, bb=None):
+            if val is None:
+                # a non-boolean switch: does it order / test the distances?
+                if bb is None:
+                    return None
+                try:
+                    sl_ = fl.slice_local(fl.atom_reads(bb), data_only=True)
+                except Exception:
+                    return None
+                if any(n_[0] == "L" and n_[1] in cand_locals for n_ in sl_) and any(n_[0] == "CALL" and k.blocks[n_[1]].term.callee and k.blocks[n_[1]].term.callee.short.split("::")[-1] in ("partial_cmp", "cmp", "total_cmp", "min", "max", "minimum", "maximum") for n_ in sl_):
+                    return ("unknown", "a distance comparison that is not a boolean test", True)
+                return None
+            neg = False
+            while isinstance(te, tuple) and te[0] == "unop" and te[1] == "Not":
+                neg = not neg
+                te = te[2]
+            if isinstance(te, tuple) and te[0] in ("place", "tmp") and bb is not None:
+                # a boolean variable with several definitions (`let ties = !improves && cand == tent`): if it was computed
+                # from the distances the decision is there, but not as one comparison -- not decided
+                def involves(l_, depth_=0, seen_=None):
+                    seen_ = seen_ if seen_ is not None else set()
+                    if depth_ > 4 or l_ in seen_:
+                        return False
+                    seen_.add(l_)
+                    for (_b, d_) in k.assigns_to(l_):
+                        rv_ = getattr(d_, "rv", None)
+                        if rv_ is None:
+                            continue
+                        if rv_.k == "binop" and rv_.j["op"] in ("Lt", "Le", "Gt", "Ge", "Eq", "Ne"):
+                            ra_, rb_ = role(panic.norm(fl.describe(rv_.ops[0], depth=6))), role(panic.norm(fl.describe(rv_.ops[1], depth=6)))
+                            if ra_ is not None and rb_ is not None:
+                                return True
+                        for o_ in rv_.ops:
+                            if o_.place is not None and not o_.place.proj and k.local_ty(o_.place.local) == "bool" and involves(o_.place.local, depth_ + 1, seen_):
+                                return True
+                    return False
+
+                disc_ = k.blocks[bb].term.discr
+                if disc_ is not None and disc_.place is not None and not disc_.place.proj and involves(disc_.place.local):
+                    return ("unknown", "a boolean computed from the distances in several steps", True)
+                return None
+            if not (isinstance(te, tuple) and te[0] == "binop"):
+                return None
+            a, b = role(te[2]), role(te[3])
+            if a is None or b is None:
+                return None
+            v = bool(val) != neg
+            if te[1] in ("Eq", "Ne") and "MAX" in (a, b) and a != b:
+                return ("eqmax", a if b == "MAX" else b, v if te[1] == "Eq" else not v)
+            if te[1] in ("Lt", "Ge"):
+                return ("lt", "%s<%s" % (a, b), v if te[1] == "Lt" else not v)
+            if te[1] in ("Gt", "Le"):
+                return ("lt", "%s<%s" % (b, a), v if te[1] == "Gt" else not v)
+            if te[1] in ("Eq", "Ne"):
+                return ("eq", "==".join(sorted([a, b])), v if te[1] == "Eq" else not v)
+            return None
+
+        # (A) the final write: from the header of the smallest loop that contains it and the edge loop
+        outer = None
+        ohdr = None
+        fin_w = [st for l in fin for st in w_out[l]]
+        loops = []
+        for blk in k.normal_blocks():
+            for s_ in k.succ(blk.i):
+                if k.dominates(s_, blk.i):
+                    loops.append((s_, natural_loop_blocks(k, s_)))
+        fin_in_loop = [st for st in fin_w if any(st.bb in lb and hdr in lb for (_h, lb) in loops)]
+        condA = set()
+        for st in fin_in_loop:
+            cands = [(h, lb) for (h, lb) in loops if st.bb in lb and hdr in lb]
+            h, lb = min(cands, key=lambda x: len(x[1]))
+            pc = path_conditions(fl, k, h, st.bb, lb - inner, lit)
+            if pc is None:
+                condA = None
+                break
+            condA |= pc
+        condB = set()
+        for (l, st) in tent_w:
+            pc = path_conditions(fl, k, hdr, st.bb, inner, lit)
+            if pc is None:
+                condB = None
+                break
+            condB |= pc
+        wantA, wantB = RELAX_EXPECTED[kind]
+
+        def show(cs):
+            return sorted(sorted("%s%s" % ("" if x[-1] else "!", (x[1] + "==MAX") if x[0] == "eqmax" else x[1]) for x in c) for c in cs) if cs is not None else "too many paths"
+
+        if condA is None or condB is None:
+            ctx.undecided(rid, "kernel|" + kind, "too many paths in %s to enumerate the conditions of its writes" % sfx, loc_str(k.span))
+            continue
+        # compare as PREDICATES, not as texts: the comparisons only ever order CAND against TENT and test FIN / TENT
+        # against MAX, so a finite set of worlds (FIN final or not, TENT reached or not, CAND <, ==, > TENT) decides
+        # whether two sets of path conditions describe the same decision (`<=` with an inner `<` is `<`)
+        worlds = [(f_, t_, o_) for f_ in (True, False) for t_ in (True, False) for o_ in ("<", "=", ">") if not (t_ and o_ != "<")]
+
+        def holds(l_, w_):
+            f_, t_, o_ = w_
+            if l_[0] == "eqmax":
+                return ((f_ if l_[1] == "FIN" else t_) == l_[2]) if l_[1] in ("FIN", "TENT") else None
+            if l_[0] == "lt" and l_[1] == "CAND<TENT":
+                return (o_ == "<") == l_[2]
+            if l_[0] == "lt" and l_[1] == "TENT<CAND":
+                return (o_ == ">") == l_[2]
+            if l_[0] == "eq" and l_[1] == "CAND==TENT":
+                return (o_ == "=") == l_[2]
+            return None
+
+        def table(cs):
+            out_ = set()
+            for w_ in worlds:
+                for c_ in cs:
+                    vals_ = [holds(l_, w_) for l_ in c_]
+                    if any(v_ is None for v_ in vals_):
+                        return None
+                    if all(vals_):
+                        out_.add(w_)
+                        break
+            return out_
+
+        # (C) the heap receives a node exactly when its tentative distance was lowered or -- in the kernels that keep
+        # all shortest paths -- the candidate TIES it; (D) a test of FIN in the pop loop never leaves that loop (a stale
+        # heap entry is skipped, the search goes on)
+        pushes = [t for t in k.calls() if t.bb in inner and t.callee and (t.callee.short.split("::")[-1] in ("push_fringe_node",) or t.callee.short.endswith("BinaryHeap::push"))]
+        condC = set()
+        for t in pushes:
+            pc = path_conditions(fl, k, hdr, t.bb, inner, lit)
+            if pc is None:
+                condC = None
+                break
+            condC |= pc
+        if fin_in_loop:
+            cands_ = [(h_, lb_) for (h_, lb_) in loops if fin_in_loop[0].bb in lb_ and hdr in lb_]
+            oh_, olb_ = min(cands_, key=lambda x: len(x[1]))
+            for blk_ in k.normal_blocks():
+                if blk_.i in olb_ and blk_.i not in inner and blk_.term.k == "switch":
+                    at_ = fl.atom(blk_.i)
+                    if at_ and at_.get("ty") == "bool":
+                        l_ = lit(panic.norm(at_["test"]), True, blk_.i)
+                        if l_ is not None and l_[0] == "eqmax" and l_[1] == "FIN":
+                            out_ = [y for y in k.succ(blk_.i) if y not in olb_]
+                            ctx.require(not out_, rid, "settled-skip|" + kind, "%s: the test of the final vector in the pop loop stays in the loop" % sfx.split("::")[-1],
+                                        "in %s a branch of the `already final?` test leaves the pop loop: the first stale heap entry ends the search and the nodes still on the heap are never made final" % sfx, loc_str(blk_.term.span))
+        tA, tB, eA, eB = table(condA), table(condB), table(wantA), table(wantB)
+        if condC is not None and pushes:
+            tC = table(condC)
+            worlds_all = [(f_, t_, o_) for f_ in (True, False) for t_ in (True, False) for o_ in ("<", "=", ">") if not (t_ and o_ != "<")]
+            if kind == "full":
+                eC = {w_ for w_ in worlds_all if w_[0] and w_[2] in ("<", "=")}
+            elif kind == "basic":
+                eC = {w_ for w_ in worlds_all if w_[2] in ("<", "=")}
+            else:
+                eC = eB
+            if tC is not None:
+                ctx.require(tC == eC, rid, "push|" + kind, "%s pushes a node on the heap exactly when its tentative distance is lowered%s" % (sfx.split("::")[-1], "" if kind == "closeness" else " or tied"),
+                            "%s pushes a node on the heap in the worlds (FIN==MAX, TENT==MAX, CAND ? TENT) = %s, the algorithm does so in %s: equally short routes are lost (or longer ones are followed)" % (sfx, sorted(tC), sorted(eC)), loc_str(pushes[0].span))
+        if tA is None or tB is None:
+            ctx.undecided(rid, "kernel|" + kind, "the writes of %s are decided by comparisons other than FIN/TENT against MAX and CAND against TENT (%s / %s); the decision is not compared" % (sfx, show(condA), show(condB)), loc_str(k.span))
+            continue
+        condA, wantA, condB_, wantB_ = tA, eA, tB, eB
+        ctx.require(tA == eA, rid, "final|" + kind, "%s makes a popped distance final exactly when FIN == MAX" % sfx.split("::")[-1],
+                    "%s makes a popped node's distance final under %s, not exactly when it is not final yet: a node that is already final is overwritten by a later (longer) heap entry, or nodes are never made final" % (sfx, show(condA_raw) if False else sorted(tA)), loc_str(fin_in_loop[0].span) if fin_in_loop else loc_str(k.span))
+        ctx.require(tB == eB, rid, "relax|" + kind, "%s lowers a tentative distance exactly in the worlds %s" % (sfx.split("::")[-1], sorted(eB)),
+                    "%s lowers a tentative distance in the worlds (FIN==MAX, TENT==MAX, CAND ? TENT) = %s, the algorithm does so in %s: a longer candidate replaces a shorter one, or a shorter one is ignored -- the distances are no longer the shortest ones" % (sfx, sorted(tB), sorted(eB)), loc_str(tent_w[0][1].span))
+        continue
+        ctx.require(condA == wantA, rid, "final|" + kind, "%s makes a popped distance final exactly under %s" % (sfx.split("::")[-1], show(wantA)),
+                    "%s makes a popped node's distance final under %s, not under %s: a node that is already final is overwritten by a later (longer) heap entry, or nodes are never made final" % (sfx, show(condA), show(wantA)), loc_str(fin_in_loop[0].span) if fin_in_loop else loc_str(k.span))
+        ctx.require(condB == wantB, rid, "relax|" + kind, "%s lowers a tentative distance exactly under %s" % (sfx.split("::")[-1], show(wantB)),
+                    "%s lowers a tentative distance under %s, not under %s: a longer candidate replaces a shorter one, or a shorter one is ignored -- the distances are no longer the shortest ones" % (sfx, show(condB), show(wantB)), loc_str(tent_w[0][1].span))
